@@ -2980,11 +2980,13 @@ namespace bloch::runtime {
         } else if (auto indexExpr = dynamic_cast<IndexExpression*>(e)) {
             Value coll = eval(indexExpr->collection.get());
             Value idxv = eval(indexExpr->index.get());
-            int idxi = 0;
+            // 64-bit so that a long index beyond the int range is reported out of bounds instead of
+            // wrapping onto a valid element
+            std::int64_t idxi = 0;
             if (idxv.type == Value::Type::Int)
                 idxi = idxv.intValue;
             else if (idxv.type == Value::Type::Long)
-                idxi = static_cast<int>(idxv.longValue);
+                idxi = idxv.longValue;
             else if (idxv.type == Value::Type::Bit)
                 idxi = idxv.bitValue;
             else if (idxv.type == Value::Type::Float)
@@ -3117,11 +3119,11 @@ namespace bloch::runtime {
                                  "assignment target must be a variable");
             Value arr = lookup(var->name);
             Value idxv = eval(aassign->index.get());
-            int i = 0;
+            std::int64_t i = 0;
             if (idxv.type == Value::Type::Int)
                 i = idxv.intValue;
             else if (idxv.type == Value::Type::Long)
-                i = static_cast<int>(idxv.longValue);
+                i = idxv.longValue;
             else if (idxv.type == Value::Type::Bit)
                 i = idxv.bitValue;
             else if (idxv.type == Value::Type::Float)
